@@ -352,6 +352,14 @@ def make_lazy(ctx, rng, nd=None, matrix=False):
             x = x.transpose(tuple(rng.sample(range(x.ndim), x.ndim)))
         elif k == 4 and not matrix:
             x = x.conj().conj()
+    if x.ndim and len(x.blocks) >= 2 and not matrix and rng.random() < 0.15:
+        # blocks of one charge removed by a public operation that keeps the sign table: sign
+        # entries stay behind for sectors that have no block any more (a later sum may put a
+        # block there again)
+        x2 = gen.dormant_signs(sr, rng, x)
+        if x2 is not x and x2.blocks and any(k_ not in x2.blocks for k_ in phases_of(x2)):
+            x = x2
+            ctx.count("feature", "sign-entries-for-removed-blocks")
     return x, vals.mode == "int"
 
 
